@@ -647,6 +647,26 @@ func (x *Exec) evalCall(env *Env, e *Expr) Value {
 			np := Ptr{Base: pv.Base, Root: pv.Root, Fresh: pv.Fresh, New: pv.New}
 			np.Path = append(append([]Step{}, pv.Path...), Step{Field: e.Args[1].Name})
 			return np
+		case "callresult":
+			// callresult("callee@k", i): the i-th result of the k-th call of callee in this function; only
+			// meaningful on paths through that call (guard the clause with the condition of that path)
+			if len(e.Args) < 1 || e.Args[0].Kind != "str" {
+				x.fail("callresult needs a string literal")
+			}
+			rv, ok := x.siteRes[e.Args[0].Name]
+			if !ok || rv == nil {
+				x.fail("callresult: no call %s has been executed on the way here", e.Args[0].Name)
+			}
+			if len(e.Args) == 2 {
+				ix, ok1 := e.Args[1].Kind, true
+				_ = ix
+				n, err := strconv.Atoi(e.Args[1].Name)
+				if tv, ok2 := rv.(Tuple); ok1 && ok2 && err == nil && n < len(tv.Vals) {
+					return tv.Vals[n]
+				}
+				x.fail("callresult: bad result index")
+			}
+			return rv
 		case "aftercall":
 			// aftercall("callee@k", e): e in the heap right after the k-th call of callee in this function
 			if len(e.Args) != 2 || e.Args[0].Kind != "str" {
